@@ -1272,6 +1272,12 @@ async fn run_isolation(_tier: Tier) {
     let aliases: Vec<String> = if init.is_empty() { Vec::new() } else { (0..sim::draw("init.n_aliases", 3)).map(|i| format!("cn{}.{}", i, APEX)).collect() };
     for a in &aliases {
         apply_add(&mut init, &RecSpec { owner: a.clone(), rtype: Rtype::CNAME, ttl: 300, rdata: "target0.example.".into() });
+        // Now and then with a name below the alias owner that has data of
+        // its own (legal, if unusual): a walk goes on below the alias.
+        if sim::chance("init.name_below_alias", 1, 2) {
+            sim::stat("probe.name_with_data_below_an_alias_owner");
+            apply_add(&mut init, &RecSpec { owner: format!("below.{}", a), rtype: Rtype::A, ttl: 300, rdata: "192.0.2.77".into() });
+        }
     }
     ALIASES.with(|x| *x.borrow_mut() = aliases.clone());
     let zone = match build_direct(&init) {
